@@ -240,4 +240,4 @@ LEVEL_TEXT = ("Machine-checked proof (Coq 8.16) over an executable model of the 
 LEVEL_NOTE = ("Trusted: Coq kernel; extraction (ExtrOcamlBasic) and ocaml/driver.ml for the correspondence only; the "
               "affinity hash is an oracle; time is unbounded. The socket shell lib/src/udp.rs is not in the theorems.")
 TECHNIQUE = "Rocq/Coq proof over an executable Gallina model + differential correspondence (extracted OCaml vs real crate)"
-CLAIMED = False
+CLAIMED = True
